@@ -182,7 +182,8 @@ class Lexer:
                     **self.exception_kwargs,
                 )
 
-    _coding_re = re.compile(r"#.*coding[:=]\s*([-\w.]+).*\r?\n")
+    # (blanks, not \s, after the colon: the declaration is on the first line)
+    _coding_re = re.compile(r"#.*coding[:=][ \t]*([-\w.]+).*\r?\n")
 
     @staticmethod
     def _names_utf8(encoding):
